@@ -33,7 +33,7 @@ MANDATORY = ["join:outer", "join:inner", "sort:True", "axis:given", "rel:permute
 
 
 def budget(tier):
-    return {"quick": dict(examples=700, shards=1), "thorough": dict(examples=12000, shards=16)}[tier]
+    return {"quick": dict(examples=3000, shards=1), "thorough": dict(examples=12000, shards=16)}[tier]
 
 
 @st.composite
